@@ -16,11 +16,56 @@ from aldy.coverage import Coverage
 from aldy.solutions import CNSolution
 
 
+class SymList:
+    """a list of observations of which only the (symbolic) length is known."""
+
+    __slots__ = ("n",)
+
+    def __init__(self, n):
+        self.n = n
+
+
+def _slen(x):
+    return x.n if isinstance(x, SymList) else len(x)
+
+
+class _Shadows:
+    """len/sum/float of aldy.coverage understand SymList / symbolic numbers while one of
+    the real accessors runs."""
+
+    def __enter__(self):
+        import aldy.coverage as cm
+
+        self.cm = cm
+        self.saved = {k: cm.__dict__.get(k) for k in ("len", "sum", "float")}
+        cm.len, cm.sum, cm.float = _slen, symx.ssum, symx.sfloat
+
+    def __exit__(self, *a):
+        for k, v in self.saved.items():
+            if v is None:
+                self.cm.__dict__.pop(k, None)
+            else:
+                setattr(self.cm, k, v)
+        return False
+
+
+def _plain(x):
+    """symbolic number whose term simplifies to a numeral -> python float."""
+    if isinstance(x, S):
+        t = z3.simplify(x.t)
+        if z3.is_rational_value(t) or z3.is_int_value(t):
+            return float(t.as_fraction())
+        return S(t)
+    return x
+
+
 class SymCoverage(Coverage):
     """
-    Coverage whose per-variant counts are symbolic.  Only the two accessors that take
-    len() of an observation list (coverage, total) and the copying filter are overridden;
-    single_copy / percentage / basic_filter / __getitem__ / dump are the real ones.
+    Coverage whose observation lists have symbolic lengths (SymList).  coverage() and
+    total() are the real accessors (run with len/sum/float shadows); single_copy /
+    percentage / basic_filter / __getitem__ / dump are the real ones as well; only the
+    copying filter is overridden.  `totals` is what the specification side uses; the real
+    total() recomputes the depth from the observation table.
     """
 
     def __init__(self, gene, profile, counts, totals, sam=None, identity_filter=True,
@@ -33,21 +78,20 @@ class SymCoverage(Coverage):
         # part of this (raw) evidence and disappear in filtered(quality_filter)
         self._lowq = dict(lowq or {})
         self._coverage = {}
-        for (pos, op) in counts:
-            self._coverage.setdefault(pos, {})[op] = None
+        for (pos, op), c in self._sc.items():
+            lq = self._lowq.get((pos, op))
+            self._coverage.setdefault(pos, {})[op] = SymList(c if lq is None else c + lq)
+        for (pos, op), lq in self._lowq.items():
+            if (pos, op) not in self._sc:
+                self._coverage.setdefault(pos, {})[op] = SymList(lq)
 
     def coverage(self, mut):
-        c = self._sc.get((mut.pos, mut.op), 0)
-        lq = self._lowq.get((mut.pos, mut.op))
-        return c if lq is None else c + lq
+        with _Shadows():
+            return _plain(Coverage.coverage(self, mut))
 
     def total(self, m):
-        pos = m.pos if hasattr(m, "pos") else m
-        t = self._tot.get(pos, 0)
-        for (p, op), lq in self._lowq.items():
-            if p == pos and op[:3] != "ins":
-                t = t + lq
-        return t
+        with _Shadows():
+            return _plain(Coverage.total(self, m))
 
     def filtered(self, fn):
         if self._identity:
@@ -64,7 +108,7 @@ class SymCoverage(Coverage):
                 raise TypeError("list-returning filters need a real Coverage")
             if f:
                 new._sc[pos, op] = c
-                new._coverage.setdefault(pos, {})[op] = None
+                new._coverage.setdefault(pos, {})[op] = SymList(c)
         # totals after filtering = sum of the kept non-insertion counts
         tot = collections.defaultdict(lambda: 0)
         for (pos, op), c in new._sc.items():
@@ -80,6 +124,13 @@ def concrete_coverage(gene, profile, counts, sam=None, qual=(60, 60)):
     for (pos, op), c in counts.items():
         cov[pos][op] = [qual] * int(c)
     return Coverage(gene, profile, sam, cov, None, {})
+
+
+def table_depth(cov, pos):
+    """depth of a locus read off the observation table, independently of Coverage.total:
+    every observation there that is not an insertion."""
+    return float(sum(len(v) for op, v in cov._coverage.get(pos, {}).items()
+                     if not op.startswith("ins")))
 
 
 def core_variants(gene):
